@@ -136,8 +136,8 @@ pub fn oracle(d: &Driver) -> Vec<Failure> {
             (Op::Delete { q }, Outcome::Deleted { .. }) => expected.push(EntryKind::Delete { queue: d.names[*q].clone(), position: d.models[i].queues[&d.names[*q]].next }),
             (Op::Truncate { q, upto }, Outcome::Truncated { .. }) => expected.push(EntryKind::Truncate { queue: d.names[*q].clone(), upto: *upto }),
             (Op::Append { q, lens, uid, .. }, Outcome::Appended { last: Some(last), .. }) => {
-                let first = last + 1 - lens.len() as u64;
-                let recs: Vec<Rec> = lens.iter().enumerate().map(|(k, &l)| Rec::of(first + k as u64, &crate::model::payload(*uid, k as u32, l as usize))).collect();
+                let first = last.wrapping_add(1).wrapping_sub(lens.len() as u64);
+                let recs: Vec<Rec> = lens.iter().enumerate().map(|(k, &l)| Rec::of(first.wrapping_add(k as u64), &crate::model::payload(*uid, k as u32, l as usize))).collect();
                 expected.push(EntryKind::Append { queue: d.names[*q].clone(), position: first, recs });
             }
             _ => {}
